@@ -8,6 +8,8 @@ import (
 
 // VerifReset restores every piece of package-level state, so that each execution explored by the
 // verification harness starts from the same state. (Added by overlay; not part of the library.)
+// Lines marked `verif:needs` are dropped by the instrumenter when the tree under test no longer has
+// the private name (the generated VerifResetGlobals restores every package-level variable anyway).
 func VerifReset() {
 	// the whole lifecycle record back to its zero value, whatever its fields are called
 	gv := reflect.ValueOf(&global).Elem()
@@ -18,17 +20,24 @@ func VerifReset() {
 	for _, l := range loggerMap {
 		l.logger = nil
 	}
-	bufferPool = sync.Pool{}
-	eventPool = sync.Pool{New: func() any { return &Event{} }}
-	frameCache = sync.Map{}
+	bufferPool = sync.Pool{}                                   // verif:needs bufferPool
+	eventPool = sync.Pool{New: func() any { return &Event{} }} // verif:needs eventPool
+	frameCache = sync.Map{}                                    // verif:needs frameCache
 	BufferCap.Store(10 * 1024)
-	enableCaller = true
-	fastCaller = false
+	enableCaller = true // verif:needs enableCaller
+	fastCaller = false  // verif:needs fastCaller
 	TimeNow = nil
 	StringFromContext = nil
 	FieldsFromContext = nil
 	Stdout = os.Stdout
 }
 
-// VerifCallerMode reads the caller-lookup switches.
-func VerifCallerMode() (enable, fast bool) { return enableCaller, fastCaller }
+// VerifCallerMode reads the caller-lookup switches (ok=false: the tree has no such switches any more).
+func VerifCallerMode() (enable, fast, ok bool) {
+	n := 0
+	enable, n = enableCaller, n+1 // verif:needs enableCaller
+	fast, n = fastCaller, n+1     // verif:needs fastCaller
+	return enable, fast, n == 2
+}
+
+var _ = sync.Pool{}
